@@ -178,6 +178,7 @@ def sym_true():
 
 EXP = z3.Function("EXP", z3.RealSort(), z3.RealSort())
 LOG = z3.Function("LOG", z3.RealSort(), z3.RealSort())
+SQRT = z3.Function("SQRT", z3.RealSort(), z3.RealSort())
 
 
 class SymReal:
@@ -247,7 +248,9 @@ class SymReal:
             return SymReal(_simp(out))
         if float(e) == 0.5:
             return ctx().sqrt(self)
-        raise Unsupported(f"power with exponent {e}")
+        fr = Fraction(float(e)).limit_denominator(10**6)
+        f = z3.Function(f"POW_{fr.numerator}_{fr.denominator}", z3.RealSort(), z3.RealSort())
+        return SymReal(f(self.t))
 
     def __rpow__(self, b):
         raise Unsupported("symbolic exponent")
@@ -450,9 +453,8 @@ class PathCtx:
             r = Fraction(math.isqrt(c.numerator), 1) / Fraction(math.isqrt(c.denominator), 1)
             if r * r == c:
                 return SymReal(z3.RealVal(str(r)))
-        r = self.fresh_real("sqrt")
-        # x must be non-negative for a real root; the library only calls it on abs()
-        self.assume(SymBool(z3.And(r.t >= 0, r.t * r.t == x.t)))
+        r = SymReal(SQRT(x.t))
+        self.assume(SymBool(z3.Implies(x.t >= 0, z3.And(r.t >= 0, r.t * r.t == x.t))))
         return r
 
     def transc(self, fn, x):
@@ -502,8 +504,9 @@ class PathCtx:
 
 
 class Path:
-    def __init__(self, index, conds, axioms, outcome, value, decisions, notes, unknown_feas, ns=None):
+    def __init__(self, index, conds, axioms, outcome, value, decisions, notes, unknown_feas, ns=None, transc=()):
         self.index = index
+        self.transc = list(transc)
         self.ns = ns
         self.conds = conds
         self.axioms = axioms
@@ -554,7 +557,7 @@ def explore(fn, pre=(), max_paths=4096, timeout_ms=10000, max_decisions=400):
             _TL.ctx = prev
         paths.append(Path(len(paths), list(c.conds), list(c.axioms), outcome, value,
                           [d.value for d in c.trail[:c.pos]], c.notes, c.unknown_feasibility,
-                          ns=getattr(c, "ns", None)))
+                          ns=getattr(c, "ns", None), transc=c.transc_terms))
         if len(paths) > max_paths:
             raise PathLimit(f"more than {max_paths} paths")
         trail = c.trail[:c.pos]
@@ -585,9 +588,10 @@ class activate:
 class EvalCtx(PathCtx):
     """Context used while evaluating contract clauses: no forking allowed."""
 
-    def __init__(self, start=10**6):
+    def __init__(self, start=10**6, transc=()):
         super().__init__([], [])
         self.fresh = itertools.count(start)
+        self.transc_terms = list(transc)
 
     def decide(self, term):
         raise Unsupported(f"contract clause branches on symbolic condition {term}")
